@@ -51,7 +51,11 @@ CLAIMED = {
  "C19": dict(cat="exploration", tech="file-system and re-load monitor around Repository::cache: tree snapshots of the parent directory, re-load of the copy via file://, version equality, byte-wise read-back, root-chain presence, corrupted-source probe",
     text="Random repositories (delegations to depth 3, odd role names, target names of every URL class, both consistent-snapshot settings, root chains 1..3) served from memory are cached with every subset shape, with/without root chain, a quarter with one corrupted source target. Known finding: names of 5 URL classes cannot be read back from the file:// copy.",
     note="The source is served from memory; what is judged is the copy.", ref="§5 C19"),
+ "C18": dict(cat="fault_enumeration", tech="runtime monitor over the items yielded by HttpTransport::fetch and the request log of a scripted loopback HTTP server; suspected violations are re-run in isolation and reported only if they reproduce",
+    text="Every fault script up to length 2/3 over {200 full, 200 stalled after k bytes, 500, 503, 403, 404, 410, 400, 416} with and without Accept-Ranges (literal and range-honouring flavours), tries 1..4, plus seeded scripts up to tries+2 for sizes 0..256 KiB. Rules: yielded bytes are a prefix of / equal to the resource, requests <= tries, Range only after an announcement, nothing after a terminal status, error kinds, completion when transient failures fit the budget.",
+    note="Client timeout 700 ms; a time-out on a non-stalled response is inconclusive.", ref="§5 C18"),
 }
+
 
 
 
